@@ -141,7 +141,7 @@ def catalogue():
     }
 
 
-FILE_LEVEL = ["duplicate-global", "unused-capture", "underscore-capture-unused-ok", "capture-used-only-in-later-call-arg-ok", "capture-in-shorthand", "shorthand-ok",
+FILE_LEVEL = ["duplicate-global", "unused-capture", "underscore-capture-unused-ok", "capture-used-only-in-later-call-arg-ok", "plus-capture-as-list-ok", "capture-in-shorthand", "shorthand-ok",
               "capture-in-shorthand-direct", "capture-in-shorthand-set", "capture-in-shorthand-listc-elem", "capture-in-shorthand-listc-value",
               "capture-in-shorthand-setc-elem", "capture-in-shorthand-setc-value", "capture-in-shorthand-scope", "capture-in-shorthand-call",
               "capture-in-shorthand-nested", "capture-in-second-shorthand-attr"]
@@ -155,6 +155,13 @@ def apply_file_level(prog, name):
     elif name == "capture-used-only-in-later-call-arg-ok":
         # the only use of the capture is a later parameter of a call whose first parameter is non-local
         prog["stanzas"].append(A.stanza("(identifier) @f_onlyuse ", [A.mut(A.var("f_m"), A.string("x")), A.let(A.var("f_k"), A.call("format", A.string("{}{}"), A.var("f_m"), A.cap("f_onlyuse")))]))
+    elif name == "plus-capture-as-list-ok":
+        # a `+` capture is a list like a `*` capture: comprehensions and loops over it (and over a variable holding it) are legal
+        cs = A.cap("f_stmts")
+        prog["stanzas"].append(A.stanza("(block (_)+ @f_stmts) @_f_b ", [A.let(A.var("f_l"), A.listc(A.call("node-type", A.var("f_x")), "f_x", cs)),
+                                                                         A.let(A.var("f_s"), A.setc(A.var("f_x"), "f_x", cs)), A.let(A.var("f_v"), cs),
+                                                                         A.let(A.var("f_l2"), A.listc(A.var("f_y"), "f_y", A.var("f_v"))),
+                                                                         A.forin("f_z", cs, [A.node(A.var("f_n"))])]))
     elif name == "underscore-capture-unused-ok":
         prog["stanzas"].append(A.stanza("(identifier) @_f_unused ", [A.node(A.var("f_n"))]))
     elif name == "capture-in-shorthand":
@@ -285,7 +292,7 @@ def run(tier):
         payload = {"property": PROP, "dsl_text": c.get("text"), "fault": fault, "where": c.get("where"), "specification": v,
                    "loader": {"verdict": kind, "rule": rule, "loc": loc, "message": c["outcome"].get("err", {}).get("display")}, "case": {k: c[k] for k in c if k in ("id", "prog", "src", "mode", "dbg", "globals", "fault", "where")}}
         if kind == "parse-error":
-            if fault.startswith("none") or fault.startswith("ok-") or fault in ("underscore-capture-unused-ok", "shorthand-ok", "capture-used-only-in-later-call-arg-ok"):
+            if fault.startswith("none") or fault.startswith("ok-") or fault in ("underscore-capture-unused-ok", "shorthand-ok", "capture-used-only-in-later-call-arg-ok", "plus-capture-as-list-ok"):
                 # a file built to be valid (and written by the renderer that C07 checks) is refused before the rules are even looked at
                 payload["detail"] = "breaks no static rule, but the loader rejects it with a parse error: %s" % rule
                 V.violation(c["id"], payload, {"observed": "rejected-valid", "rule": "parse-error"})
@@ -296,8 +303,8 @@ def run(tier):
             V.violation(c["id"], payload, {"observed": "panic"})
             continue
         # generator sanity (OneFaultOneVerdict on the model side): faults are rejected by the specification, neighbours accepted
-        if fault.startswith("none") or fault.startswith("ok-") or fault in ("underscore-capture-unused-ok", "shorthand-ok", "capture-used-only-in-later-call-arg-ok"):
-            if not v["ok"] and fault in ("capture-used-only-in-later-call-arg-ok", "ok-inner-local-shadows-outer-mutable", "ok-inner-list-shadows-outer-single", "ok-condition-names-with-keyword-prefix", "none", "ok-shadow-in-nested-block", "ok-for-over-list-global", "ok-scan-of-call-of-locals",
+        if fault.startswith("none") or fault.startswith("ok-") or fault in ("underscore-capture-unused-ok", "shorthand-ok", "capture-used-only-in-later-call-arg-ok", "plus-capture-as-list-ok"):
+            if not v["ok"] and fault in ("capture-used-only-in-later-call-arg-ok", "plus-capture-as-list-ok", "ok-inner-local-shadows-outer-mutable", "ok-inner-list-shadows-outer-single", "ok-condition-names-with-keyword-prefix", "none", "ok-shadow-in-nested-block", "ok-for-over-list-global", "ok-scan-of-call-of-locals",
                                           "ok-set-mutable-in-nested", "ok-runtime-empty-regex", "underscore-capture-unused-ok", "shorthand-ok"):
                 raise C.ToolError("the specification rejects a file built to be valid (%s): %s" % (fault, v))
         elif v["ok"] and not c["id"].startswith("c06gf"):
